@@ -864,6 +864,34 @@ class Interp:
             return (not c) if negate else c
         raise Unsupported(f'truth of {v!r}')
 
+    def merge_branch(s, fr, bb, cond, arms):
+        """execute both arms of a symbolic two-way branch up to their join block and merge the frame state with If"""
+        j = ipdom_of(fr.item, bb)
+        if j is None: raise Unsupported('merge: branch without a join block in ' + fr.item.name)
+        d = dict(arms)
+        t_true = d.get('1', d.get('otherwise')); t_false = d.get('0', d.get('otherwise'))
+        if '0' in d and 'otherwise' in d and '1' not in d: t_true = d['otherwise']; t_false = d['0']
+        base = {k: cp(v) for k, v in fr.locals.items()}
+        outs = []
+        for tgt in (t_true, t_false):
+            fr.locals = {k: cp(v) for k, v in base.items()}
+            if tgt != j:
+                r = s.run_frame(fr, tgt, stop_at=j)
+                if not (isinstance(r, tuple) and r and r[0] == 'stopped'): raise Unsupported('merge: arm returned before the join block')
+            outs.append(fr.locals)
+        la, lb = outs
+        merged = {}
+        for k in set(la) | set(lb):
+            if k in la and k in lb:
+                try: merged[k] = merge_values(cond, la[k], lb[k])
+                except Unsupported:
+                    if k in base and False: raise
+                    # a temporary that differs between the arms and cannot be merged: leave it unset (a later read is an error)
+                    continue
+            # locals set in only one arm are dead after the join
+        fr.locals = merged
+        return j
+
     def switch(s, fr, bb, v, arms):
         if isinstance(v, bool): v = int(v)
         if hasattr(v, 'mir_switch'): v = v.mir_switch(s)
@@ -873,6 +901,8 @@ class Interp:
             d = dict(arms)
             if 'otherwise' not in d: raise Unsupported(f'switch value {v} has no arm')
             return d['otherwise']
+        if z3.is_bool(v) and fr.item.name in s.merge_fns and not z3.is_true(z3.simplify(v)) and not z3.is_false(z3.simplify(v)):
+            return s.merge_branch(fr, bb, z3.simplify(v), arms)
         if z3.is_bool(v):
             c = s.ctx.decide(v)
             want = 1 if c else 0
@@ -887,6 +917,65 @@ class Interp:
             return dict(arms)['otherwise']
         raise Unsupported(f'switch on {v!r}')
 
+
+def _succs(item):
+    out = {}
+    for bb, sts in item.blocks.items():
+        t = sts[-1] if sts else ''
+        su = []
+        for m in re.finditer(r'(?:return: |success: |real: |otherwise: |\d+: |goto -> |-> )(bb\d+)', t):
+            # skip unwind targets:  `unwind: bbN`
+            su.append(m.group(1))
+        for m in re.finditer(r'unwind: (bb\d+)', t):
+            if m.group(1) in su: su.remove(m.group(1))
+        out[bb] = su
+    dead = {bb for bb, sts in item.blocks.items() if sts and sts[-1].rstrip(';') == 'unreachable'}
+    for bb in out: out[bb] = [x for x in out[bb] if x not in dead]
+    return out
+
+def ipdom_of(item, bb):
+    """immediate post-dominator of block bb (ignoring unwind edges); None if it is the exit"""
+    cache = item.__dict__.setdefault('_ipdom', None) if hasattr(item, '__dict__') else None
+    succ = _succs(item)
+    nodes = list(succ)
+    EXIT = '<exit>'
+    for n in nodes:
+        if not succ[n]: succ[n] = [EXIT]
+    pd = {n: set(nodes) | {EXIT} for n in nodes}; pd[EXIT] = {EXIT}
+    changed = True
+    while changed:
+        changed = False
+        for n in nodes:
+            new = set.intersection(*[pd[x] for x in succ[n]]) | {n}
+            if new != pd[n]: pd[n] = new; changed = True
+    cands = pd[bb] - {bb}
+    # the immediate one: the candidate post-dominated by all other candidates... i.e. whose own pd set is the largest
+    best = None
+    for c in cands:
+        if all((o in pd[c]) for o in cands): best = c
+    return None if best in (None, EXIT) else best
+
+def merge_values(c, a, b):
+    """If(c, a, b) on interpreter values"""
+    if a is b: return a
+    if isinstance(a, (int, bool)) and isinstance(b, (int, bool)) and type(a) == type(b) and a == b: return a
+    if hasattr(a, 'mir_merge'): return a.mir_merge(c, a, b)
+    if hasattr(b, 'mir_merge'): return b.mir_merge(c, a, b)
+    if isinstance(a, Agg) and isinstance(b, Agg) and a.name == b.name and len(a.fields) == len(b.fields):
+        return Agg(a.name, [merge_values(c, x, y) for x, y in zip(a.fields, b.fields)])
+    if isinstance(a, Enum) and isinstance(b, Enum) and a.variant == b.variant and len(a.fields) == len(b.fields):
+        return Enum(a.name, a.variant, [merge_values(c, x, y) for x, y in zip(a.fields, b.fields)])
+    if isinstance(a, list) and isinstance(b, list) and len(a) == len(b): return [merge_values(c, x, y) for x, y in zip(a, b)]
+    if isinstance(a, bool) or isinstance(b, bool) or z3.is_bool(a) or z3.is_bool(b):
+        A = z3.BoolVal(a) if isinstance(a, bool) else a; B = z3.BoolVal(b) if isinstance(b, bool) else b
+        return z3.simplify(z3.If(c, A, B))
+    if z3.is_bv(a) or z3.is_bv(b):
+        w = a.size() if z3.is_bv(a) else b.size()
+        A = z3.BitVecVal(a, w) if isinstance(a, int) else a; B = z3.BitVecVal(b, w) if isinstance(b, int) else b
+        return z3.simplify(z3.If(c, A, B))
+    if isinstance(a, Ref) and isinstance(b, Ref) and a.frame is b.frame and a.local == b.local and a.path == b.path: return a
+    if isinstance(a, Agg) and not a.fields and isinstance(b, Agg) and not b.fields: return a
+    raise Unsupported(f'cannot merge {a!r} and {b!r}')
 
 def run_paths(items, models, body, enums=None, max_paths=4096, merge_fns=(), ctx_hook=None):
     """Enumerate all paths of `body(I, holder_frame)` by replay (body typically calls the code under analysis, then the
